@@ -16,6 +16,7 @@ mod c06;
 mod c08;
 mod c15;
 mod c16;
+mod c17;
 
 use std::collections::BTreeMap;
 use std::io::Write;
@@ -99,7 +100,7 @@ fn main() {
         samples: vec![],
     };
     // panics inside the code under test are caught per case; silence the default hook's noise
-    std::panic::set_hook(Box::new(|_| {}));
+    std::panic::set_hook(Box::new(|i| { if std::env::var("VERIF_PANIC_TRACE").is_ok() { eprintln!("{i}"); } }));
     match group.as_str() {
         "c05" => c05::run(&args, &mut out),
         "c06" => c06::run(&args, &mut out),
@@ -110,6 +111,7 @@ fn main() {
         "c14" => twin::run(&args, &mut out, "c14"),
         "c15" => c15::run(&args, &mut out),
         "c16" => c16::run(&args, &mut out),
+        "c17" => c17::run(&args, &mut out),
         other => {
             eprintln!("unknown group {other}");
             std::process::exit(2);
